@@ -26,8 +26,10 @@ import (
 	resourcetypes "github.com/projecteru2/core/resource/types"
 	"github.com/projecteru2/core/store"
 	"github.com/projecteru2/core/store/etcdv3"
+	"github.com/projecteru2/core/store/etcdv3/meta"
 	coretypes "github.com/projecteru2/core/types"
 	"github.com/projecteru2/core/wal"
+	"go.etcd.io/etcd/api/v3/mvccpb"
 	clientv3 "go.etcd.io/etcd/client/v3"
 )
 
@@ -48,6 +50,8 @@ type Gate struct {
 	seq      int
 	obs      func() Event // observer run after each effect (under the gate), may be nil
 	inflight int          // blocking calls (lock waits) in progress
+	Free     bool         // do not serialise calls (concurrency driver): effects interleave as the code lets them
+	H        *Holder      // optional hold point for one operation
 }
 
 func (g *Gate) Reset(failAt, crashAt int) {
@@ -115,6 +119,18 @@ func class(err error) string {
 // Do passes one external call through the gate. `blocking` calls (lock acquisition) are performed
 // outside the gate's mutex and logged when they return.
 func (g *Gate) Do(ctx context.Context, target, method string, args Event, blocking bool, f func() error) error {
+	if g.H != nil {
+		g.H.Point(ctx, target+"."+method)
+	}
+	if g.Free {
+		err := f()
+		ev := Event{"ev": "Ext", "op": opOf(ctx), "target": target, "method": method, "class": class(err)}
+		for a, v := range args {
+			ev[a] = v
+		}
+		g.Emit(ev)
+		return err
+	}
 	g.mu.Lock()
 	if g.dead {
 		g.mu.Unlock()
@@ -169,6 +185,90 @@ func (g *Gate) Do(ctx context.Context, target, method string, args Event, blocki
 	return err
 }
 
+// Holder parks one operation right before its k-th instrumented point (store / plugin / engine / WAL
+// call, or - finer - a key-value access inside a store call) until released.
+type Holder struct {
+	mu      sync.Mutex
+	op      string
+	at      int
+	n       int
+	label   string
+	reached chan struct{}
+	release chan struct{}
+}
+
+func NewHolder(op string, at int) *Holder {
+	return &Holder{op: op, at: at, reached: make(chan struct{}), release: make(chan struct{})}
+}
+
+func (h *Holder) Point(ctx context.Context, label string) {
+	if h == nil || opOf(ctx) != h.op {
+		return
+	}
+	h.mu.Lock()
+	h.n++
+	hit := h.at != 0 && h.n == h.at
+	if hit {
+		h.label = label
+	}
+	h.mu.Unlock()
+	if hit {
+		close(h.reached)
+		<-h.release
+	}
+}
+
+func (h *Holder) Count() int    { h.mu.Lock(); defer h.mu.Unlock(); return h.n }
+func (h *Holder) Label() string { h.mu.Lock(); defer h.mu.Unlock(); return h.label }
+
+// kvW instruments the key-value accesses of the etcd store (Mercury.KV is an exported embedded field).
+type kvW struct {
+	meta.KV
+	e *Env
+}
+
+func (k *kvW) pt(ctx context.Context, m string) {
+	if k.e.G.H != nil && k.e.KVPoints {
+		k.e.G.H.Point(ctx, "kv."+m)
+	}
+}
+func (k *kvW) Get(ctx context.Context, key string, opts ...clientv3.OpOption) (*clientv3.GetResponse, error) {
+	k.pt(ctx, "Get")
+	return k.KV.Get(ctx, key, opts...)
+}
+func (k *kvW) GetOne(ctx context.Context, key string, opts ...clientv3.OpOption) (*mvccpb.KeyValue, error) {
+	k.pt(ctx, "GetOne")
+	return k.KV.GetOne(ctx, key, opts...)
+}
+func (k *kvW) GetMulti(ctx context.Context, keys []string, opts ...clientv3.OpOption) ([]*mvccpb.KeyValue, error) {
+	k.pt(ctx, "GetMulti")
+	return k.KV.GetMulti(ctx, keys, opts...)
+}
+func (k *kvW) Delete(ctx context.Context, key string, opts ...clientv3.OpOption) (*clientv3.DeleteResponse, error) {
+	k.pt(ctx, "Delete")
+	return k.KV.Delete(ctx, key, opts...)
+}
+func (k *kvW) BatchCreate(ctx context.Context, data map[string]string, opts ...clientv3.OpOption) (*clientv3.TxnResponse, error) {
+	k.pt(ctx, "BatchCreate")
+	return k.KV.BatchCreate(ctx, data, opts...)
+}
+func (k *kvW) BatchDelete(ctx context.Context, keys []string, opts ...clientv3.OpOption) (*clientv3.TxnResponse, error) {
+	k.pt(ctx, "BatchDelete")
+	return k.KV.BatchDelete(ctx, keys, opts...)
+}
+func (k *kvW) BatchPut(ctx context.Context, data map[string]string, opts ...clientv3.OpOption) (*clientv3.TxnResponse, error) {
+	k.pt(ctx, "BatchPut")
+	return k.KV.BatchPut(ctx, data, opts...)
+}
+func (k *kvW) BatchUpdate(ctx context.Context, data map[string]string, opts ...clientv3.OpOption) (*clientv3.TxnResponse, error) {
+	k.pt(ctx, "BatchUpdate")
+	return k.KV.BatchUpdate(ctx, data, opts...)
+}
+func (k *kvW) BatchCreateAndDecr(ctx context.Context, data map[string]string, decrKey string) error {
+	k.pt(ctx, "BatchCreateAndDecr")
+	return k.KV.BatchCreateAndDecr(ctx, data, decrKey)
+}
+
 // ---------------------------------------------------------------------------------- environment
 
 type Env struct {
@@ -182,7 +282,12 @@ type Env struct {
 	Eng   *Engines
 	Locks *lockBook
 	dir   string
+	// KVPoints: also count the store's key-value accesses as hold points (store-internal windows)
+	KVPoints bool
 }
+
+// ConfigHook lets a driver adjust the configuration before the Calcium is built.
+var ConfigHook func(*coretypes.Config)
 
 var engineOnce sync.Once
 
@@ -205,6 +310,9 @@ func BaseConfig(dir string) coretypes.Config {
 // directory yields a second core instance on the same store and WAL file (used after a crash).
 func NewEnv(t *testing.T, dir string, g *Gate, eng *Engines) *Env {
 	cfg := BaseConfig(dir)
+	if ConfigHook != nil {
+		ConfigHook(&cfg)
+	}
 	engineOnce.Do(func() { enginefactory.InitEngineCache(context.Background(), cfg, nil) })
 	cal, err := calcium.New(context.Background(), cfg, t)
 	if err != nil {
@@ -218,7 +326,15 @@ func NewEnv(t *testing.T, dir string, g *Gate, eng *Engines) *Env {
 	}
 	e := &Env{T: t, Cfg: cfg, Cal: cal, G: g, Eng: eng, Locks: &lockBook{held: map[*lockW]bool{}}, dir: dir}
 	cal.VerifInterpose(
-		func(s store.Store) store.Store { e.Raw = s; return &storeW{Store: s, e: e} },
+		func(s store.Store) store.Store {
+			e.Raw = s
+			if m, ok := s.(*etcdv3.Mercury); ok {
+				if _, wrapped := m.KV.(*kvW); !wrapped {
+					m.KV = &kvW{KV: m.KV, e: e}
+				}
+			}
+			return &storeW{Store: s, e: e}
+		},
 		func(m resource.Manager) resource.Manager { e.Rmgr = m; return &rmgrW{Manager: m, e: e} },
 		func(w wal.WAL) wal.WAL { e.Wal = w; return &walW{WAL: w, e: e} },
 	)
